@@ -120,11 +120,12 @@ func c14R14(p *core.Program, r *core.Report, fs []*core.Func) {
 					if !leaves || why != "" {
 						return
 					}
-					// ... because the function's own consumer stopped?
+					// ... because the function's own consumer stopped? (its yield answered false - the function's own parameter
+					// or the captured one of the iterator it is nested in - or a local closure that reports just that did)
 					own := false
-					if yield != nil {
-						for _, fct := range g.FactsAt(g.PointOf(x.(ast.Stmt))) {
-							if c, isCall := ast.Unparen(fct.Cond).(*ast.CallExpr); isCall && !fct.Val && fct.Tag == nil && core.VarOf(info, c.Fun) == yield {
+					for _, fct := range g.FactsAt(g.PointOf(x.(ast.Stmt))) {
+						if c, isCall := ast.Unparen(fct.Cond).(*ast.CallExpr); isCall && !fct.Val && fct.Tag == nil {
+							if v := core.VarOf(info, c.Fun); v != nil && (v == yield || isYieldParam(f.Root(), v) || reportsStop(p, f.Root(), v, 0)) {
 								own = true
 							}
 						}
@@ -164,6 +165,90 @@ func c14R14(p *core.Program, r *core.Report, fs []*core.Func) {
 				why+": the return-statement iterator is driven by ast.Inspect, which cannot be stopped - the walk goes on to the next return statement and calls yield after it answered false, a runtime panic (and a list cut short is not the declared alternatives)")
 		}
 	}
+}
+
+// isYieldParam: v is a parameter of func(...) bool type of the function or of a literal nested in it.
+func isYieldParam(root *core.Func, v *types.Var) bool {
+	sig, ok := v.Type().Underlying().(*types.Signature)
+	if !ok || sig.Results().Len() != 1 || !types.Identical(sig.Results().At(0).Type(), types.Typ[types.Bool]) {
+		return false
+	}
+	found := false
+	info := root.Info()
+	ast.Inspect(root.Node(), func(n ast.Node) bool {
+		ft, isFT := n.(*ast.FuncType)
+		if !isFT || ft.Params == nil {
+			return true
+		}
+		for _, fld := range ft.Params.List {
+			for _, nm := range fld.Names {
+				if info.ObjectOf(nm) == types.Object(v) {
+					found = true
+				}
+			}
+		}
+		return true
+	})
+	return found
+}
+
+// reportsStop: v is a local closure that answers false only because a yield (or another such closure) answered false:
+// every `return false` of it is behind that, every other return is `return true`.
+func reportsStop(p *core.Program, root *core.Func, v *types.Var, depth int) bool {
+	if depth > 2 {
+		return false
+	}
+	info := root.Info()
+	d, ok := core.SingleDef(info, root.Body, v)
+	if !ok {
+		return false
+	}
+	lit, isLit := ast.Unparen(d.Rhs).(*ast.FuncLit)
+	if !isLit {
+		return false
+	}
+	lf := p.FuncOfLit(lit)
+	if lf == nil {
+		return false
+	}
+	g := graph(lf)
+	good := true
+	nFalse := 0
+	ast.Inspect(lit.Body, func(n ast.Node) bool {
+		if inner, isInner := n.(*ast.FuncLit); isInner && inner != lit {
+			return false
+		}
+		ret, isRet := n.(*ast.ReturnStmt)
+		if !isRet {
+			return true
+		}
+		if len(ret.Results) != 1 {
+			good = false
+			return true
+		}
+		tv, isConst := info.Types[ret.Results[0]]
+		if !isConst || tv.Value == nil {
+			good = false
+			return true
+		}
+		if tv.Value.String() == "true" {
+			return true
+		}
+		nFalse++
+		behind := false
+		for _, fct := range g.FactsAt(g.PointOf(ret)) {
+			if c, isCall := ast.Unparen(fct.Cond).(*ast.CallExpr); isCall && !fct.Val && fct.Tag == nil {
+				if cv := core.VarOf(info, c.Fun); cv != nil && (isYieldParam(root, cv) || reportsStop(p, root, cv, depth+1)) {
+					behind = true
+				}
+			}
+		}
+		if !behind {
+			good = false
+		}
+		return true
+	})
+	return good && nFalse > 0
 }
 
 // c14R15: "each alternative being a constant or a type assignable to the declared result type": the type of an
